@@ -364,22 +364,40 @@ impl Property for C08 {
         // known C01 finding (derives through packed members that are not Copy): without Copy
         // nothing is packed here (counted), so that the rest of the derive rules stay testable
         if !case.keep_known && (bits & (1 << 6) != 0 || case.exclusions.iter().any(|(w, _)| w % 5 == 0)) {
-            fn unpack(c: &mut Comp, n: &mut usize) {
-                if c.packed || c.pragma_pack.is_some() {
+            // only types that are members of other types matter for that finding: a packed type
+            // that nothing contains by value keeps its packing (then it must derive nothing)
+            fn unpack(c: &mut Comp, n: &mut usize, top: bool, used: bool) {
+                if (!top || used) && (c.packed || c.pragma_pack.is_some()) {
                     c.packed = false;
                     c.pragma_pack = None;
                     *n += 1;
                 }
                 for f in c.fields.iter_mut() {
                     if let FieldTy::Inline(ic) = &mut f.ty {
-                        unpack(ic, n);
+                        unpack(ic, n, false, true);
                     }
                 }
             }
+            fn uses(c: &Comp, out: &mut std::collections::BTreeSet<usize>) {
+                for f in &c.fields {
+                    match &f.ty {
+                        FieldTy::Ty(t) => t.named_refs(out, true),
+                        FieldTy::Inline(ic) => uses(ic, out),
+                    }
+                }
+            }
+            let mut used = std::collections::BTreeSet::new();
+            for d in prog.decls.iter() {
+                match d {
+                    Decl::Comp(c) => uses(c, &mut used),
+                    Decl::Typedef { ty, .. } => ty.named_refs(&mut used, true),
+                    _ => {}
+                }
+            }
             let mut k = 0usize;
-            for d in prog.decls.iter_mut() {
+            for (i, d) in prog.decls.iter_mut().enumerate() {
                 if let Decl::Comp(c) = d {
-                    unpack(c, &mut k);
+                    unpack(c, &mut k, true, used.contains(&i));
                 }
             }
             out.excluded_known += k;
